@@ -243,6 +243,19 @@ def run(R):
         R.viol("C05.versions.kept", "anchor-missing:version-map", "fewer than 10 uses of the version map type found (%d): the rule no longer sees the map" % n_sites)
     R.inst("C05.versions.kept", "K1 forbidden-callee", "no retain/remove/clear/drain on HashMap<XorName,(Record,HashSet<PeerId>)> anywhere in ant-networking", n_sites, not dropped and n_sites >= 10)
 
+    # ... every reply of a pending query is recorded: once the version id of a reply was computed, no path to a normal return gets
+    # round recording the responder (HashSet::insert into that version's peer list) — no cap on the number of versions, no sampling
+    acc2 = R.body("C05.versions.recorded", ACC)
+    if acc2 is not None:
+        prep(acc2)
+        vid = [b["id"] for b in acc2.blocks if b["term"]["k"] == "call" and not b["cleanup"] and (b["term"]["ncallee"] or "").endswith("XorName::from_content")]
+        if not vid:
+            R.viol("C05.versions.recorded", "anchor-missing:version-id", "accumulate_get_record_found no longer derives a version id with XorName::from_content", acc2, acc2.lines[0])
+            R.inst("C05.versions.recorded", "K5 must-follow", "every reply is recorded under its version", 0, False)
+        else:
+            g2 = cfg_of(acc2)
+            R.must_pass("C05.versions.recorded", acc2, [("the responder is recorded (HashSet::insert)", CallSink("*HashSet::insert", "std::collections::hash::set::HashSet::insert", "std::collections::hash::set::HashSet::<T, S>::insert"))],
+                        from_blocks=tuple(d for v in vid for d, _ in g2.succ[v]), descr="every reply of a pending query is recorded under its version before the quorum is judged")
     # ... and the set handed out as SplitRecord is the whole map (copied or moved, no element-dropping adaptor on the way)
     from rules import _chain_calls, DROPPING_ADAPTORS
     from props.C04 import agg_field_operands
